@@ -103,7 +103,12 @@ func CopyObjectProperties(to, from *Object) (*Object, error) {
 }
 
 func copyAllItemProperties(to, from Item) (Item, error) {
-	if CollectionType == to.GetType() {
+	// an untyped `to` takes the type of `from`: the properties to merge are those of that type
+	typ := to.GetType()
+	if typ == "" {
+		typ = from.GetType()
+	}
+	if CollectionType == typ {
 		o, err := ToCollection(to)
 		if err != nil {
 			return o, err
@@ -114,7 +119,7 @@ func copyAllItemProperties(to, from Item) (Item, error) {
 		}
 		return CopyCollectionProperties(o, n)
 	}
-	if CollectionPageType == to.GetType() {
+	if CollectionPageType == typ {
 		o, err := ToCollectionPage(to)
 		if err != nil {
 			return o, err
@@ -125,7 +130,7 @@ func copyAllItemProperties(to, from Item) (Item, error) {
 		}
 		return CopyCollectionPageProperties(o, n)
 	}
-	if OrderedCollectionType == to.GetType() {
+	if OrderedCollectionType == typ {
 		o, err := ToOrderedCollection(to)
 		if err != nil {
 			return o, err
@@ -136,7 +141,7 @@ func copyAllItemProperties(to, from Item) (Item, error) {
 		}
 		return CopyOrderedCollectionProperties(o, n)
 	}
-	if OrderedCollectionPageType == to.GetType() {
+	if OrderedCollectionPageType == typ {
 		o, err := ToOrderedCollectionPage(to)
 		if err != nil {
 			return o, err
@@ -147,7 +152,7 @@ func copyAllItemProperties(to, from Item) (Item, error) {
 		}
 		return CopyOrderedCollectionPageProperties(o, n)
 	}
-	if ActorTypes.Contains(to.GetType()) {
+	if ActorTypes.Contains(typ) {
 		o, err := ToActor(to)
 		if err != nil {
 			return o, err
@@ -158,7 +163,7 @@ func copyAllItemProperties(to, from Item) (Item, error) {
 		}
 		return UpdatePersonProperties(o, n)
 	}
-	if ObjectTypes.Contains(to.GetType()) || to.GetType() == "" {
+	if ObjectTypes.Contains(typ) || typ == "" {
 		o, err := ToObject(to)
 		if err != nil {
 			return o, err
@@ -169,7 +174,7 @@ func copyAllItemProperties(to, from Item) (Item, error) {
 		}
 		return CopyObjectProperties(o, n)
 	}
-	return to, fmt.Errorf("could not process objects with type %s", to.GetType())
+	return to, fmt.Errorf("could not process objects with type %s", typ)
 }
 
 // CopyItemProperties delegates to the correct per type functions for copying
